@@ -11,10 +11,20 @@
       repair only the last one in `dir()` order did)?
     * `keyTable` — `inject_fixture()`, `inject_fixture("")`, `inject_fixture("f")`: is the fixture named
       by the attribute's own name (`attr.fixture_name or attr_name`)?
-  equal the model's `discovers` / `usesAttrName` (`Model/Inject.lean`).
+  equal the model's `discovers` / `usesAttrName` (`Model/Inject.lean`);
+    * `callableTable` — the real `helpers.introspection.get_callable_args` on every way of WRITING a callable (def,
+      lambda, generator function, defaults / *args / keyword-only, `functools.wraps` wrapper with its own parameters,
+      wrapper of a wrapper, `(*args, **kwargs)` wrapper, real `mock.patch`, `functools.partial`, callable object, bound
+      method, staticmethod, classmethod, function read from the class; plain and wraps-decorated) × own parameter lists
+      of length 0–2: the row's input is the description of how the callable was written
+      equals `Callable.neededArgs` (`Model/Callable.lean`): the own positional parameters of the object that is CALLED,
+      minus the bound `self` — never those of the function it wraps;
+    * `declTable` — the real `@lcc.fixture(scope=…, per_thread=…)` decorator on all 4 × 2 combinations
+      equals `Fixture.declAllowed` (the first stage of `Prepare.prepareFull`).
   `Generated/C14Tables.lean` is written by harness/props/c14.py (`tables`).
 -/
 import LccModel.Model.Inject
+import LccModel.Model.Callable
 import LccModel.Generated.C14Tables
 
 namespace LccModel.Generated.C14
@@ -42,5 +52,19 @@ theorem assign_table_complete (sh : Shape) (pl : Place) : (sh, pl) ∈ assignTab
 
 theorem twice_table_complete (sh : Shape) (pl : Place) : (sh, pl) ∈ twiceTable.map (·.1) := by
   cases sh <;> cases pl <;> decide
+
+theorem callable_table_agrees : ∀ r ∈ callableTable, LccModel.Callable.neededArgs r.1 = r.2 := by decide
+
+theorem decl_table_agrees : ∀ r ∈ declTable, LccModel.Fixture.declAllowed r.1.1 r.1.2 = r.2 := by decide
+
+theorem decl_table_complete (s : LccModel.Fixture.Scope) (pt : Bool) : (s, pt) ∈ declTable.map (·.1) := by
+  cases s <;> cases pt <;> decide
+
+/-- the callable table exercises every kind, with and without a wrapped function -/
+theorem callable_table_covers_kinds (k : LccModel.Callable.Kind) : ∃ r ∈ callableTable, r.1.kind = k := by
+  cases k <;> decide
+
+theorem callable_table_has_wrappers :
+    ∃ r ∈ callableTable, r.1.wrapped.isSome = true ∧ r.1.wrapped ≠ some r.1.params ∧ r.2 ≠ [] := by decide
 
 end LccModel.Generated.C14
